@@ -468,11 +468,10 @@ impl Ctx {
       }
     };
     type Alt<T> = (&'static str, fn(&str) -> Result<T, String>);
-    let alts: [Alt<CoreDID>; 5] = [
+    let alts: [Alt<CoreDID>; 4] = [
       ("from_str", |s| s.parse::<CoreDID>().map_err(|e| e.to_string())),
       ("try_from_str", |s| CoreDID::try_from(s).map_err(|e| e.to_string())),
       ("try_from_string", |s| CoreDID::try_from(s.to_string()).map_err(|e| e.to_string())),
-      ("try_from_base", |s| BaseDIDUrl::parse(s).map_err(|e| format!("{:?}", e)).and_then(|b| CoreDID::try_from(b).map_err(|e| e.to_string()))),
       ("serde", |s| serde_json::from_value::<CoreDID>(Value::String(s.to_string())).map_err(|e| e.to_string())),
     ];
     for (name, f) in &alts {
@@ -491,6 +490,28 @@ impl Ctx {
           }
         }
       }
+    }
+
+    // TryFrom<BaseDIDUrl>: building the BaseDIDUrl is the caller's own use of the third-party parser (re-exported
+    // as identity_did::BaseDIDUrl); only the conversion is the library call under test.
+    match catch(|| BaseDIDUrl::parse(s)) {
+      Err(_) => self.rep.inc("base_parser_panicked"),
+      Ok(Err(_)) => {}
+      Ok(Ok(b)) => match catch(|| CoreDID::try_from(b)) {
+        Err(p) => self.panic("CoreDID::try_from_base", s, &p),
+        Ok(Err(_)) => {
+          if main.is_some() {
+            self.rep.inc("entry_points_disagree");
+          }
+        }
+        Ok(Ok(v)) => {
+          let same = main.as_ref().map_or(false, |m| catch(|| *m == v && m.as_str() == v.as_str()).unwrap_or(false));
+          if !same {
+            self.rep.inc("entry_points_disagree");
+            self.check_did("CoreDID", "@try_from_base", Some(s), &v);
+          }
+        }
+      },
     }
 
     // ---- DIDUrl
